@@ -10,12 +10,16 @@ package main
 import (
 	"context"
 	"database/sql"
+	"database/sql/driver"
 	"errors"
 	"fmt"
 	"net"
+	"regexp"
 	"strings"
 	"sync"
 	"time"
+
+	"github.com/cockroachdb/apd/v3"
 
 	"github.com/dolthub/vitess/go/mysql"
 	"github.com/dolthub/vitess/go/sqltypes"
@@ -32,6 +36,9 @@ import (
 )
 
 const bigRows = 6000
+const pcRows = 1200 // rows of every per-client payload table
+const valRows = 640 // rows of the value-coverage table
+const maxClients = 16
 
 // ---------- recording wrapper around the real handler ----------
 
@@ -107,6 +114,7 @@ type caseT struct {
 type obs struct {
 	cols     []string
 	rows     []string
+	cells    [][]string
 	errno    int
 	errText  string
 	affected int64
@@ -207,6 +215,7 @@ func runClient(conn *sql.Conn, cs *caseT) obs {
 			parts[i] = canon(v)
 		}
 		o.rows = append(o.rows, strings.Join(parts, "\x01"))
+		o.cells = append(o.cells, parts)
 	}
 	if err := rows.Err(); err != nil {
 		o.errno, o.errText = errnoOf(err)
@@ -229,63 +238,69 @@ func pickN(r *lib.RNG) int {
 	}
 }
 
-func gen(r *lib.RNG) caseT {
+// genFor generates one modelled case for client k: every statement of the concurrent phase reads only the
+// client's own payload table pc_k (distinct, client-specific bytes in every row), so foreign bytes are recognisable.
+func genFor(r *lib.RNG, k int) caseT {
 	cs := caseT{Mode: "text"}
 	if r.Bool() {
 		cs.Mode = "prepared"
 	}
 	n := pickN(r)
+	if n > pcRows {
+		n = lib.Pick(r, []int{1023, 1024, 1025, pcRows})
+	}
 	cs.N = n
-	k := r.Intn(20)
+	tbl := fmt.Sprintf("pc_%d", k)
+	kind := r.Intn(20)
 	switch {
-	case k < 11: // id range [lo, lo+n)
+	case kind < 12: // id range [lo, lo+n)
 		cs.Kind = "range"
-		lo := r.Intn(bigRows - n + 1)
-		cols := lib.Pick(r, []string{"id, s, n, t", "id", "t, s", "n, id, s", "*"})
-		cs.Inproc = fmt.Sprintf("SELECT %s FROM big WHERE id >= %d AND id < %d ORDER BY id", cols, lo, lo+n)
+		lo := r.Intn(pcRows - n + 1)
+		cols := lib.Pick(r, []string{"id, tag, n, u, d", "u, tag", "tag", "d, u, n, id", "*"})
+		cs.Inproc = fmt.Sprintf("SELECT %s FROM %s WHERE id >= %d AND id < %d ORDER BY id", cols, tbl, lo, lo+n)
 		cs.SQL = cs.Inproc
 		if cs.Mode == "prepared" {
-			cs.SQL = fmt.Sprintf("SELECT %s FROM big WHERE id >= ? AND id < ? ORDER BY id", cols)
+			cs.SQL = fmt.Sprintf("SELECT %s FROM %s WHERE id >= ? AND id < ? ORDER BY id", cols, tbl)
 			cs.Args = []interface{}{lo, lo + n}
 		}
-	case k < 13: // LIMIT
+	case kind < 14:
 		cs.Kind = "limit"
-		off := r.Intn(500)
-		cs.Inproc = fmt.Sprintf("SELECT id, s FROM big ORDER BY id LIMIT %d OFFSET %d", n, off)
-		cs.SQL = cs.Inproc
-	case k < 15: // rows with NULLs only
-		cs.Kind = "nulls"
-		if n > 800 {
-			n = 513
+		off := r.Intn(200)
+		if n+off > pcRows {
+			n = pcRows - off
 			cs.N = n
 		}
-		cs.Inproc = fmt.Sprintf("SELECT n, id, n FROM big WHERE n IS NULL ORDER BY id LIMIT %d", n)
+		cs.Inproc = fmt.Sprintf("SELECT id, tag, u FROM %s ORDER BY id LIMIT %d OFFSET %d", tbl, n, off)
 		cs.SQL = cs.Inproc
-	case k < 16:
+	case kind < 15: // rows whose tag is NULL
+		cs.Kind = "nulls"
+		cs.Inproc = fmt.Sprintf("SELECT tag, id, u FROM %s WHERE tag IS NULL ORDER BY id", tbl)
+		cs.SQL = cs.Inproc
+	case kind < 16:
 		cs.Kind = "join"
 		if n > 600 {
 			n = 257
 			cs.N = n
 		}
-		lo := r.Intn(bigRows - n + 1)
-		cs.Inproc = fmt.Sprintf("SELECT a.id, b.s, b.t FROM big a JOIN big b ON a.id = b.id WHERE a.id >= %d AND a.id < %d ORDER BY a.id", lo, lo+n)
+		lo := r.Intn(pcRows - n + 1)
+		cs.Inproc = fmt.Sprintf("SELECT a.id, b.tag, b.u FROM %s a JOIN %s b ON a.id = b.id WHERE a.id >= %d AND a.id < %d ORDER BY a.id", tbl, tbl, lo, lo+n)
 		cs.SQL = cs.Inproc
 		if cs.Mode == "prepared" {
-			cs.SQL = "SELECT a.id, b.s, b.t FROM big a JOIN big b ON a.id = b.id WHERE a.id >= ? AND a.id < ? ORDER BY a.id"
+			cs.SQL = fmt.Sprintf("SELECT a.id, b.tag, b.u FROM %s a JOIN %s b ON a.id = b.id WHERE a.id >= ? AND a.id < ? ORDER BY a.id", tbl, tbl)
 			cs.Args = []interface{}{lo, lo + n}
 		}
-	case k < 17:
+	case kind < 17:
 		cs.Kind = "union"
 		h := n / 2
-		cs.Inproc = fmt.Sprintf("SELECT id, s FROM big WHERE id < %d UNION ALL SELECT id + 100000, t FROM big WHERE id < %d ORDER BY 1", h, n-h)
+		cs.Inproc = fmt.Sprintf("SELECT id, tag FROM %s WHERE id < %d UNION ALL SELECT id + 100000, tag FROM %s WHERE id < %d ORDER BY 1", tbl, h, tbl, n-h)
 		cs.SQL = cs.Inproc
-	case k < 18:
+	case kind < 18:
 		cs.Kind = "agg"
 		cs.N = 1
-		cs.Inproc = fmt.Sprintf("SELECT COUNT(*), MAX(id), MIN(s), COUNT(n) FROM big WHERE id < %d", n)
+		cs.Inproc = fmt.Sprintf("SELECT COUNT(*), MAX(u), MIN(tag), COUNT(tag), MIN(n) FROM %s WHERE id < %d", tbl, n)
 		cs.SQL = cs.Inproc
 		if cs.Mode == "prepared" {
-			cs.SQL = "SELECT COUNT(*), MAX(id), MIN(s), COUNT(n) FROM big WHERE id < ?"
+			cs.SQL = fmt.Sprintf("SELECT COUNT(*), MAX(u), MIN(tag), COUNT(tag), MIN(n) FROM %s WHERE id < ?", tbl)
 			cs.Args = []interface{}{n}
 		}
 	default:
@@ -293,9 +308,9 @@ func gen(r *lib.RNG) caseT {
 		cs.N = 0
 		cs.Inproc = lib.Pick(r, []string{
 			"SELECT * FROM missing_table",
-			"SELECT nosuchcol FROM big",
-			"SELECT id FROM big WHERE",
-			"SELECT id, (SELECT id FROM big) FROM big WHERE id < 3 ORDER BY id", // subquery returns more than one row: fails while spooling
+			"SELECT nosuchcol FROM " + tbl,
+			"SELECT id FROM " + tbl + " WHERE",
+			"SELECT id, (SELECT id FROM " + tbl + ") FROM " + tbl + " WHERE id < 3 ORDER BY id", // fails while spooling
 		})
 		cs.SQL = cs.Inproc
 		cs.Mode = "text"
@@ -303,21 +318,34 @@ func gen(r *lib.RNG) caseT {
 	return cs
 }
 
-// ---------- main ----------
-
-func engineRows(rs []gsql.Row) []string {
-	out := make([]string, len(rs))
-	for i, r := range rs {
-		parts := make([]string, len(r))
-		for j, v := range r {
-			parts[j] = canonEngine(v)
-		}
-		out[i] = strings.Join(parts, "\x01")
+// soakFor: a short statement with a trailing partial batch (never a multiple of 128 rows) on the client's table.
+func soakFor(r *lib.RNG, k int) caseT {
+	cs := caseT{Mode: "text", Kind: "soak", Phase: "concurrent", Client: k}
+	if r.Bool() {
+		cs.Mode = "prepared"
 	}
-	return out
+	n := r.Range(1, 127)
+	if r.Chance(1, 5) {
+		n += 128 * r.Range(1, 2)
+	}
+	cs.N = n
+	lo := r.Intn(pcRows - n + 1)
+	tbl := fmt.Sprintf("pc_%d", k)
+	cs.Inproc = fmt.Sprintf("SELECT id, tag, n, u, d FROM %s WHERE id >= %d AND id < %d ORDER BY id", tbl, lo, lo+n)
+	cs.SQL = cs.Inproc
+	if cs.Mode == "prepared" {
+		cs.SQL = fmt.Sprintf("SELECT id, tag, n, u, d FROM %s WHERE id >= ? AND id < ? ORDER BY id", tbl)
+		cs.Args = []interface{}{lo, lo + n}
+	}
+	return cs
 }
 
-func canonEngine(v interface{}) string {
+// ---------- canonical text of engine values (the oracle side of the comparison) ----------
+
+// canonEngine prints an in-process value the way MySQL puts it on the wire for the column type: integers in
+// decimal (unsigned ones unsigned), DECIMAL in plain notation with the column scale, DATE as YYYY-MM-DD,
+// DATETIME as YYYY-MM-DD hh:mm:ss[.ffffff] with the column's fractional digits, strings and binary as their bytes.
+func canonEngine(v interface{}, typ gsql.Type) string {
 	switch x := v.(type) {
 	case nil:
 		return nullMark
@@ -327,24 +355,130 @@ func canonEngine(v interface{}) string {
 		return string(x)
 	case int, int8, int16, int32, int64, uint, uint8, uint16, uint32, uint64:
 		return fmt.Sprintf("%d", x)
-	case float64:
-		// SUM over INT yields a float64 holding an integer value in the generated data (|sum| < 2^53)
-		return fmt.Sprintf("%d", int64(x))
+	case *apd.Decimal:
+		return x.Text('f')
+	case apd.Decimal:
+		return x.Text('f')
+	case time.Time:
+		ts := strings.ToLower(typ.String())
+		if strings.HasPrefix(ts, "date") && !strings.HasPrefix(ts, "datetime") {
+			return x.Format("2006-01-02")
+		}
+		if strings.Contains(ts, "(6)") {
+			return x.Format("2006-01-02 15:04:05.000000")
+		}
+		return x.Format("2006-01-02 15:04:05")
 	case fmt.Stringer:
 		return x.String()
 	}
 	return fmt.Sprintf("?%T:%v", v, v)
 }
 
+func engineCells(rs []gsql.Row, sch gsql.Schema) [][]string {
+	out := make([][]string, len(rs))
+	for i, r := range rs {
+		parts := make([]string, len(r))
+		for j, v := range r {
+			parts[j] = canonEngine(v, sch[j].Type)
+		}
+		out[i] = parts
+	}
+	return out
+}
+
+// classOf names the class of a column type for the signature of a value mismatch.
+func classOf(typ gsql.Type, want string) string {
+	ts := strings.ToLower(typ.String())
+	switch {
+	case want == nullMark:
+		return "null"
+	case strings.Contains(ts, "unsigned"):
+		w := strings.Fields(ts)[0]
+		if w == "bigint" && len(want) >= 19 && (len(want) > 19 || want >= "9223372036854775808") {
+			return "bigint-unsigned/above-int64"
+		}
+		return w + "-unsigned"
+	case strings.HasPrefix(ts, "tinyint"), strings.HasPrefix(ts, "smallint"), strings.HasPrefix(ts, "mediumint"), strings.HasPrefix(ts, "int"), strings.HasPrefix(ts, "bigint"):
+		sign := "nonneg"
+		if strings.HasPrefix(want, "-") {
+			sign = "negative"
+		}
+		return strings.Fields(strings.Split(ts, "(")[0])[0] + "-signed/" + sign
+	case strings.HasPrefix(ts, "decimal"):
+		return "decimal"
+	case strings.HasPrefix(ts, "datetime"), strings.HasPrefix(ts, "timestamp"):
+		if want < "1000" {
+			return "datetime/year-below-1000"
+		}
+		return "datetime"
+	case strings.HasPrefix(ts, "date"):
+		if len(want) >= 4 && want[:4] < "1000" {
+			return "date/year-below-1000"
+		}
+		return "date"
+	case strings.HasPrefix(ts, "year"):
+		return "year"
+	case strings.Contains(ts, "binary"), strings.Contains(ts, "blob"):
+		return "binary"
+	default:
+		kind := "ascii"
+		for i := 0; i < len(want); i++ {
+			if want[i] == 0 {
+				kind = "with-nul"
+				break
+			}
+			if want[i] >= 0x80 {
+				kind = "multi-byte"
+			}
+		}
+		return "string/" + kind
+	}
+}
+
+var foreignTag = regexp.MustCompile(`cl(\d\d)\|`)
+
+// foreign reports whether the received cell carries the payload tag of another client.
+func foreign(cell string, client int) bool {
+	for _, m := range foreignTag.FindAllStringSubmatch(cell, -1) {
+		if m[1] != fmt.Sprintf("%02d", client) {
+			return true
+		}
+	}
+	return false
+}
+
+func sqlStr(s string) string {
+	var sb strings.Builder
+	sb.WriteByte('\'')
+	for i := 0; i < len(s); i++ {
+		switch c := s[i]; c {
+		case '\\':
+			sb.WriteString(`\\`)
+		case '\'':
+			sb.WriteString(`''`)
+		case 0:
+			sb.WriteString(`\0`)
+		default:
+			sb.WriteByte(c)
+		}
+	}
+	sb.WriteByte('\'')
+	return sb.String()
+}
+
+// ---------- main ----------
+
 func main() {
 	lib.Main("C35", func(c *lib.Ctx) {
 		c.Header = "From Coq Require Import List NArith.\nImport ListNotations.\nFrom GMS Require Import Corr.C35.\nOpen Scope N_scope."
 		c.CaseType = "C35.case"
 		c.MismatchFn = "C35.mismatches"
-		c.SetRule("statements over a 6000-row table (BIGINT key, VARCHAR with multi-byte text and empty strings, nullable INT, TEXT): key ranges, LIMIT/OFFSET, " +
-			"NULL-only rows, self-join, UNION ALL, aggregates, failing statements; result sizes mostly from {0,1,127,128,129,255,256,257,511,512,513,5000}, " +
-			"some 128k-1..128k+1 and random < 700; text and prepared mode; the fixed size list first by one client in both modes, then the generated cases " +
-			"spread over 8-16 concurrent clients (each case index i goes to client i mod K); DML on twin tables by one client. " +
+		c.SetRule("solo phase (one client, text and prepared mode): key ranges of a 6000-row table with result sizes {0,1,127,128,129,255,256,257,511,512,513,5000}; " +
+			"full scans and ranges of a 640-row value table holding the boundary values of TINYINT..BIGINT signed/unsigned, DECIMAL(20,5)/(65,0), VARCHAR/TEXT with " +
+			"multi-byte and NUL bytes, VARBINARY, DATE, DATETIME, DATETIME(6), YEAR and NULLs; DML on twin tables; failing statements; DATE below year 1000 (known finding). " +
+			"Concurrent phase: 8-16 clients, each reading only its own 1200-row payload table (client tag in every string, client-specific BIGINT/BIGINT UNSIGNED >= 2^63/DECIMAL): " +
+			"generated ranges, LIMIT, NULL rows, self-join, UNION ALL, aggregates, errors with sizes around every multiple of 128, then a soak of several hundred short " +
+			"statements per client whose last batch is partial (predicate only). Every received VALUE is compared with the in-process value. " +
 			"Non-trivial = a successful statement; distinct = distinct (mode, statement, arguments).")
 		logrus.SetLevel(logrus.PanicLevel)
 
@@ -363,12 +497,73 @@ func main() {
 				if i%3 != 0 {
 					nv = fmt.Sprintf("%d", (i*7919)%2001-1000)
 				}
-				w := strings.ReplaceAll(strings.ReplaceAll(words[i%len(words)], "\\", "\\\\"), "'", "''")
-				fmt.Fprintf(&sb, "(%d,'%s%d',%s,'%s')", i, w, i%97, nv, strings.Repeat(w, i%4))
+				fmt.Fprintf(&sb, "(%d,%s,%s,%s)", i, sqlStr(fmt.Sprintf("%s%d", words[i%len(words)], i%97)), nv, sqlStr(strings.Repeat(words[i%len(words)], i%4)))
 			}
 			s.MustExec(sb.String())
 		}
 		s.MustExec("CREATE TABLE w1 (id INT PRIMARY KEY, v INT)", "CREATE TABLE w2 (id INT PRIMARY KEY, v INT)")
+
+		// value-coverage table: every column cycles through its own pool (pool lengths pairwise different)
+		s.MustExec(`CREATE TABLE vals (id INT PRIMARY KEY, i8 TINYINT, u8 TINYINT UNSIGNED, i16 SMALLINT, u16 SMALLINT UNSIGNED, i24 MEDIUMINT, u24 MEDIUMINT UNSIGNED,
+			i32 INT, u32 INT UNSIGNED, i64 BIGINT, u64 BIGINT UNSIGNED, d1 DECIMAL(20,5), d2 DECIMAL(65,0), s VARCHAR(64), b VARBINARY(32), tx TEXT,
+			dt DATE, dtm DATETIME(6), dtm0 DATETIME, yr YEAR)`)
+		pools := [][]string{
+			{"-128", "127", "0", "-1", "NULL", "1"},
+			{"255", "0", "128", "127", "NULL"},
+			{"-32768", "32767", "0", "-1", "NULL", "256", "-129"},
+			{"65535", "0", "32768", "NULL"},
+			{"-8388608", "8388607", "0", "-1", "NULL", "65536", "-32769", "1"},
+			{"16777215", "0", "8388608", "NULL", "1"},
+			{"-2147483648", "2147483647", "0", "-1", "NULL", "16777216", "-8388609"},
+			{"4294967295", "0", "2147483648", "2147483647", "NULL", "1"},
+			{"-9223372036854775808", "9223372036854775807", "0", "-1", "NULL", "4294967296", "-2147483649", "1", "-9223372036854775807"},
+			{"18446744073709551615", "9223372036854775808", "9223372036854775807", "0", "NULL", "18446744073709551614", "1", "9223372036854775809", "4294967296", "12345678901234567890"},
+			{"-123456789012345.67891", "0.00001", "0", "NULL", "999999999999999.99999", "-0.00001", "1.5"},
+			{"99999999999999999999999999999999999999999999999999999999999999999", "-1", "0", "NULL", "-99999999999999999999999999999999999999999999999999999999999999999"},
+			{sqlStr("日本\x00x"), "''", "NULL", sqlStr("é"), sqlStr("plain"), sqlStr("a\x00\x00b"), sqlStr("NULL"), sqlStr("𝄞 clef"), sqlStr(" lead and trail ")},
+			{"X'00FF10'", "X''", "NULL", "X'80'", "X'C328'", "X'000000'", "X'7F'"},
+			{sqlStr("é"), "''", "NULL", sqlStr(strings.Repeat("long text ", 30)), sqlStr("x\x00y")},
+			{"'9999-12-31'", "'1000-01-01'", "'2024-02-29'", "NULL", "'1970-01-01'"},
+			{"'2024-02-29 23:59:59.999999'", "'1970-01-01 00:00:00.000001'", "NULL", "'9999-12-31 23:59:59.999999'", "'1000-01-01 00:00:00.000000'", "'2001-02-03 04:05:06.100000'"},
+			{"'1000-01-01 00:00:00'", "'2038-01-19 03:14:07'", "NULL", "'9999-12-31 23:59:59'"},
+			{"2155", "1901", "NULL", "2000", "1970"},
+		}
+		for lo := 0; lo < valRows; lo += 160 {
+			var sb strings.Builder
+			sb.WriteString("INSERT INTO vals VALUES ")
+			for i := lo; i < lo+160; i++ {
+				if i > lo {
+					sb.WriteByte(',')
+				}
+				fmt.Fprintf(&sb, "(%d", i)
+				for j, pl := range pools {
+					sb.WriteByte(',')
+					sb.WriteString(pl[(i+j*(i/len(pl)))%len(pl)])
+				}
+				sb.WriteByte(')')
+			}
+			s.MustExec(sb.String())
+		}
+		s.MustExec("CREATE TABLE olddate (id INT PRIMARY KEY, d DATE)", "INSERT INTO olddate VALUES (1, '0001-01-01'), (2, '0999-12-31')")
+		// per-client payload tables
+		for k := 0; k < maxClients; k++ {
+			s.MustExec(fmt.Sprintf("CREATE TABLE pc_%d (id INT PRIMARY KEY, tag VARCHAR(64), n BIGINT, u BIGINT UNSIGNED, d DECIMAL(20,5))", k))
+			for lo := 0; lo < pcRows; lo += 500 {
+				var sb strings.Builder
+				fmt.Fprintf(&sb, "INSERT INTO pc_%d VALUES ", k)
+				for i := lo; i < lo+500; i++ {
+					if i > lo {
+						sb.WriteByte(',')
+					}
+					tag := "NULL"
+					if i%37 != 36 {
+						tag = sqlStr(fmt.Sprintf("cl%02d|row%05d|%s", k, i, strings.Repeat(string(rune('A'+k)), i%23)))
+					}
+					fmt.Fprintf(&sb, "(%d,%s,%d,%d,%d.%05d)", i, tag, int64(k)*1000000000+int64(i), uint64(18446744073709551615)-uint64(k*1000000+i), k, i)
+				}
+				s.MustExec(sb.String())
+			}
+		}
 
 		ln, err := net.Listen("tcp", "127.0.0.1:0")
 		if err != nil {
@@ -389,7 +584,7 @@ func main() {
 			panic(err)
 		}
 		defer db.Close()
-		db.SetMaxOpenConns(40)
+		db.SetMaxOpenConns(64)
 		for i := 0; ; i++ {
 			if err = db.Ping(); err == nil {
 				break
@@ -401,9 +596,9 @@ func main() {
 		}
 
 		type slot struct {
-			cs  caseT
-			o   obs
-			cid uint32
+			cs    caseT
+			o     obs
+			fresh bool // run on a connection of its own (the statement may kill it)
 		}
 		newConn := func() (*sql.Conn, uint32) {
 			conn, err := db.Conn(context.Background())
@@ -420,23 +615,35 @@ func main() {
 		// runs the slots of one client in order on one connection and attaches the recorded batch sizes
 		runSlots := func(slots []*slot) {
 			conn, id := newConn()
-			defer conn.Close()
+			defer func() { conn.Close() }()
 			for _, sl := range slots {
-				sl.cid = id
+				if sl.fresh {
+					c2, id2 := newConn()
+					sl.o = runClient(c2, &sl.cs)
+					sl.o.sizes = h.take(id2)
+					c2.Raw(func(interface{}) error { return driver.ErrBadConn })
+					c2.Close()
+					continue
+				}
 				sl.o = runClient(conn, &sl.cs)
 				sl.o.sizes = h.take(id)
+				if sl.o.errno < 0 { // connection-level failure: continue on a new connection
+					conn.Close()
+					conn, id = newConn()
+				}
 			}
 		}
 
-		var all []*slot
+		var all []*slot   // modelled / individually recorded cases
+		var soak [][]*slot // per client, predicate only
 		if c.ReplayFile != "" {
 			var cs caseT
 			lib.LoadReplay(c.ReplayFile, &cs)
 			cs.Phase = "solo"
-			all = []*slot{{cs: cs}}
+			all = []*slot{{cs: cs, fresh: true}}
 			runSlots(all)
 		} else {
-			// phase 1: the fixed size list, text and prepared, one client
+			// ----- solo phase -----
 			var solo []*slot
 			for _, mode := range []string{"text", "prepared"} {
 				for _, n := range sizes {
@@ -449,8 +656,37 @@ func main() {
 					}
 					solo = append(solo, &slot{cs: cs})
 				}
+				// value coverage
+				for _, rg := range [][2]int{{0, valRows}, {0, 1}, {100, 228}, {17, 146}, {300, 600}} {
+					cs := caseT{Mode: mode, Kind: "values", N: rg[1] - rg[0], Phase: "solo"}
+					cs.Inproc = fmt.Sprintf("SELECT * FROM vals WHERE id >= %d AND id < %d ORDER BY id", rg[0], rg[1])
+					cs.SQL = cs.Inproc
+					if mode == "prepared" {
+						cs.SQL = "SELECT * FROM vals WHERE id >= ? AND id < ? ORDER BY id"
+						cs.Args = []interface{}{rg[0], rg[1]}
+					}
+					solo = append(solo, &slot{cs: cs})
+				}
+				cs := caseT{Mode: mode, Kind: "values", N: valRows, Phase: "solo"}
+				cs.Inproc = "SELECT u64, i64, u32, i8, d1, s, b, dtm, MAX(id) FROM vals GROUP BY u64, i64, u32, i8, d1, s, b, dtm ORDER BY MAX(id)"
+				cs.SQL = cs.Inproc
+				if mode == "prepared" {
+					cs.SQL = "SELECT u64, i64, u32, i8, d1, s, b, dtm, MAX(id) FROM vals WHERE id >= ? GROUP BY u64, i64, u32, i8, d1, s, b, dtm ORDER BY MAX(id)"
+					cs.Args = []interface{}{0}
+				}
+				solo = append(solo, &slot{cs: cs})
+				// known finding: DATE below year 1000
+				od := caseT{Mode: mode, Kind: "olddate", N: 2, Phase: "solo", Inproc: "SELECT id, d FROM olddate ORDER BY id", SQL: "SELECT id, d FROM olddate ORDER BY id"}
+				if mode == "prepared" {
+					od.SQL = "SELECT id, d FROM olddate WHERE id >= ? ORDER BY id"
+					od.Args = []interface{}{0}
+				}
+				solo = append(solo, &slot{cs: od, fresh: true})
 			}
-			// DML on twin tables: client on w1, in process on w2
+			for _, q := range []string{"SELECT * FROM missing_table", "SELECT nosuchcol FROM big", "SELECT id FROM big WHERE",
+				"SELECT id, (SELECT id FROM big) FROM big WHERE id < 3 ORDER BY id", "INSERT INTO big VALUES (1, 'dup', NULL, 'dup')"} {
+				solo = append(solo, &slot{cs: caseT{Mode: "text", Kind: "error", Phase: "solo", SQL: q, Inproc: q}})
+			}
 			dml := []string{
 				"INSERT INTO %s VALUES (1,10),(2,20),(3,30),(4,40)",
 				"UPDATE %s SET v = v + 1 WHERE id >= 2",
@@ -468,28 +704,123 @@ func main() {
 			}
 			runSlots(solo)
 			all = append(all, solo...)
-			// phase 2: generated cases over K concurrent clients
-			K := c.R.Range(8, 16)
+
+			// ----- concurrent phase -----
+			K := c.R.Range(8, maxClients)
+			nsoak := 300
+			if c.Tier == "thorough" {
+				nsoak = 4000
+			}
 			c.SetExtra("concurrent_clients", K)
+			c.SetExtra("soak_statements_per_client", nsoak)
 			per := make([][]*slot, K)
 			for i := len(all); i < c.N; i++ {
-				cs := gen(c.R.Fork())
-				cs.Phase = "concurrent"
 				k := i % K
+				cs := genFor(c.R.Fork(), k)
+				cs.Phase = "concurrent"
 				cs.Client = k
 				sl := &slot{cs: cs}
 				per[k] = append(per[k], sl)
 				all = append(all, sl)
 			}
+			soak = make([][]*slot, K)
+			for k := 0; k < K; k++ {
+				r := c.R.Fork()
+				for j := 0; j < nsoak; j++ {
+					soak[k] = append(soak[k], &slot{cs: soakFor(r, k)})
+				}
+			}
 			var wg sync.WaitGroup
 			for k := 0; k < K; k++ {
 				wg.Add(1)
-				go func(k int) { defer wg.Done(); runSlots(per[k]) }(k)
+				go func(k int) {
+					defer wg.Done()
+					// interleave: a third of the soak, the modelled cases, the rest of the soak
+					a := len(soak[k]) / 3
+					runSlots(soak[k][:a])
+					runSlots(per[k])
+					runSlots(soak[k][a:])
+				}(k)
 			}
 			wg.Wait()
 		}
 
-		// evaluation, in case order
+		// ----- evaluation, in case order -----
+		// compare returns "" or (signature, description) of the first difference between client and engine
+		compare := func(cs *caseT, o obs, exp eng.Result) (string, string) {
+			if exp.Err != nil || o.errno != 0 {
+				want := 0
+				if exp.Err != nil {
+					want = int(gsql.CastSQLError(exp.Err).Number())
+				}
+				if (exp.Err != nil) != (o.errno != 0) || (want != o.errno) {
+					if cs.Kind == "olddate" {
+						return "date-year-below-1000-unpadded", fmt.Sprintf("DATE values before year 1000: client error %d %q (the binary protocol cannot carry the unpadded text), in process %v", o.errno, o.errText, exp.Err)
+					}
+					return "error-differs/" + cs.Kind, fmt.Sprintf("client error %d %q, in-process error %v (errno %d)", o.errno, o.errText, exp.Err, want)
+				}
+				return "", ""
+			}
+			if cs.Kind == "dml" {
+				var want int64 = -1
+				if len(exp.Rows) == 1 && len(exp.Rows[0]) == 1 {
+					if ok, isOk := exp.Rows[0][0].(types.OkResult); isOk {
+						want = int64(ok.RowsAffected)
+					}
+				}
+				if want != o.affected {
+					return "affected-rows-differ", fmt.Sprintf("client affected %d, in process %d", o.affected, want)
+				}
+				return "", ""
+			}
+			wantCols := make([]string, len(exp.Schema))
+			for i, col := range exp.Schema {
+				wantCols[i] = col.Name
+			}
+			if strings.Join(wantCols, "\x01") != strings.Join(o.cols, "\x01") {
+				return "columns-differ", fmt.Sprintf("client columns %q, in process %q", o.cols, wantCols)
+			}
+			want := engineCells(exp.Rows, exp.Schema)
+			if len(want) != len(o.cells) {
+				sig := "row-count-differs/lost"
+				if len(o.cells) > len(want) {
+					sig = "row-count-differs/extra"
+				}
+				return sig, fmt.Sprintf("client received %d rows, in process %d", len(o.cells), len(want))
+			}
+			for i := range want {
+				for j := range want[i] {
+					if want[i][j] == o.cells[i][j] {
+						continue
+					}
+					got := o.cells[i][j]
+					what := fmt.Sprintf("row %d column %s (%s): client received %q, in process %q", i, wantCols[j], exp.Schema[j].Type.String(), got, want[i][j])
+					if cs.Phase == "concurrent" && (foreign(got, cs.Client) || foreign(strings.Join(o.cells[i], "\x01"), cs.Client)) {
+						return "cross-talk/foreign-client-bytes", what + " - the row carries another client's payload"
+					}
+					cl := classOf(exp.Schema[j].Type, want[i][j])
+					if strings.HasSuffix(cl, "year-below-1000") {
+						return "date-year-below-1000-unpadded", what
+					}
+					if cs.Phase == "concurrent" {
+						// is it reproducible alone? decides between an encoding defect and interference between connections
+						again := obs{}
+						func() {
+							conn, id := newConn()
+							defer conn.Close()
+							again = runClient(conn, cs)
+							h.take(id)
+						}()
+						if len(again.cells) == len(want) && len(again.cells[i]) > j && again.cells[i][j] == want[i][j] {
+							return "cross-talk/concurrent-only/" + cl, what + " - the same statement alone returns the in-process value"
+						}
+					}
+					return "value-differs/" + cl, what
+				}
+			}
+			return "", ""
+		}
+
 		for _, sl := range all {
 			cs := sl.cs
 			o := sl.o
@@ -510,8 +841,10 @@ func main() {
 			if exp.Err == nil {
 				key = fmt.Sprintf("%s|%s|%v", cs.Mode, cs.SQL, cs.Args)
 			}
+			sig, what := compare(&cs, o, exp)
 			var id int
-			if exp.Err == nil && cs.Kind != "dml" && cs.Kind != "error" && cs.Sizes != nil && cs.Kind != "agg" {
+			modelled := exp.Err == nil && o.errno == 0 && cs.Kind != "dml" && cs.Kind != "error" && cs.Kind != "agg" && cs.Kind != "olddate" && cs.Sizes != nil
+			if modelled {
 				c.Count(fmt.Sprintf("rows:%d", len(exp.Rows)))
 				term := lib.CoqTuple(lib.CoqN(uint64(len(exp.Rows))), lib.CoqListOf(cs.Sizes, func(x int) string { return lib.CoqN(uint64(x)) }))
 				id = c.Case(term, cs, key)
@@ -519,55 +852,22 @@ func main() {
 				id = c.CaseNoModel(cs, key)
 			}
 			c.PredChecked()
-			fail := func(sig, what string) {
+			if sig != "" {
 				cs.FirstBad = what
-				c.PredFail(id, sig, fmt.Sprintf("%s mode, %s (client %d, %s): %s", cs.Mode, cs.SQL, cs.Client, cs.Phase, what), cs)
+				c.PredFail(id, sig, fmt.Sprintf("%s mode, %s %v (client %d, %s phase): %s", cs.Mode, cs.SQL, cs.Args, cs.Client, cs.Phase, what), cs)
 			}
-			// errors: both fail with the same MySQL error number, or neither fails
-			if exp.Err != nil || o.errno != 0 {
-				want := 0
-				if exp.Err != nil {
-					want = int(gsql.CastSQLError(exp.Err).Number())
-				}
-				if (exp.Err != nil) != (o.errno != 0) || (want != o.errno) {
-					fail("error-differs/"+cs.Kind, fmt.Sprintf("client error %d %q, in-process error %v (errno %d)", o.errno, o.errText, exp.Err, want))
-				}
-				continue
-			}
-			if cs.Kind == "dml" {
-				var want int64 = -1
-				if len(exp.Rows) == 1 && len(exp.Rows[0]) == 1 {
-					if ok, isOk := exp.Rows[0][0].(types.OkResult); isOk {
-						want = int64(ok.RowsAffected)
-					}
-				}
-				if want != o.affected {
-					fail("affected-rows-differ", fmt.Sprintf("client affected %d, in process %d", o.affected, want))
-				}
-				continue
-			}
-			// columns
-			wantCols := make([]string, len(exp.Schema))
-			for i, col := range exp.Schema {
-				wantCols[i] = col.Name
-			}
-			if strings.Join(wantCols, "\x01") != strings.Join(o.cols, "\x01") {
-				fail("columns-differ", fmt.Sprintf("client columns %q, in process %q", o.cols, wantCols))
-				continue
-			}
-			want := engineRows(exp.Rows)
-			if len(want) != len(o.rows) {
-				sig := "row-count-differs/lost"
-				if len(o.rows) > len(want) {
-					sig = "row-count-differs/extra"
-				}
-				fail(sig, fmt.Sprintf("client received %d rows, in process %d", len(o.rows), len(want)))
-				continue
-			}
-			for i := range want {
-				if want[i] != o.rows[i] {
-					fail("row-differs", fmt.Sprintf("row %d: client %q, in process %q", i, o.rows[i], want[i]))
-					break
+		}
+		for k := range soak {
+			for _, sl := range soak[k] {
+				cs := sl.cs
+				exp := s.Query(cs.Inproc)
+				c.Count("soak_statements")
+				c.PredChecked()
+				if sig, what := compare(&cs, sl.o, exp); sig != "" {
+					cs.FirstBad = what
+					cs.GotRows = len(sl.o.rows)
+					id := c.CaseNoModel(cs, "")
+					c.PredFail(id, sig, fmt.Sprintf("%s mode, %s %v (client %d of the concurrent soak): %s", cs.Mode, cs.SQL, cs.Args, cs.Client, what), cs)
 				}
 			}
 		}
